@@ -202,10 +202,31 @@ fn reply(kind: &str, kv: &HashMap<&str, &str>) -> String {
         "unk" | "rawunk" => rustbus::standard_messages::unknown_method(&call),
         _ => rustbus::standard_messages::invalid_args(&call, sig.as_deref()),
     });
-    let r = match r {
+    let mut r = match r {
         Ok(r) => r,
         Err(_) => return "PANIC".to_string(),
     };
+    // a server answering a caller in the other byte order: same reply, body (if any) rebuilt in that order
+    if kv.get("rbo").copied() == Some("B") || kv.get("rbo").copied() == Some("l") {
+        let rbo = if kv["rbo"] == "B" { ByteOrder::BigEndian } else { ByteOrder::LittleEndian };
+        let mut nb = MarshalledMessageBody::with_byteorder(rbo);
+        let mut ok = true;
+        {
+            let mut p = r.body.parser();
+            while p.sigs_left() > 0 {
+                match p.get::<String>() {
+                    Ok(s) => nb.push_param(s).unwrap(),
+                    Err(_) => {
+                        ok = false;
+                        break;
+                    }
+                }
+            }
+        }
+        if ok {
+            r.body = nb;
+        }
+    }
     let mut out = format!(
         "T:{} RS:{} D:{} OWN:{} E:{}",
         typ_code(r.typ),
